@@ -30,6 +30,9 @@ static void loadConfig(const json::Object &o) {
   if (auto v = o.getInteger("maxPaths")) CFG.maxPaths = *v;
   if (auto v = o.getInteger("loopFuel")) CFG.loopFuel = *v;
   if (auto v = o.getInteger("concrMax")) CFG.concrMax = (int)*v;
+  if (auto v = o.getInteger("widenAfter")) CFG.widenAfter = (int)*v;
+  if (auto v = o.getBoolean("dedupe")) CFG.dedupe = *v;
+  if (auto v = o.getInteger("frameForkWiden")) CFG.frameForkWiden = (int)*v;
   if (auto v = o.getString("reportRegion")) CFG.reportRegion = v->str();
   if (auto a = o.getArray("fields"))
     for (auto &f : *a) { auto &fo = *f.getAsObject(); FieldSpec fs; fs.name = fo.getString("name")->str(); fs.lo = *fo.getInteger("lo"); fs.hi = *fo.getInteger("hi"); fs.writable = *fo.getBoolean("writable"); CFG.fields.push_back(fs); }
@@ -93,7 +96,7 @@ static bool setupCell(const json::Object &cell, State &S, std::string &err) {
       if (auto t = ro.getString("tailset")) { std::string hx = t->str(); tail.cs.reset(); for (int b = 0; b < 32 && (size_t)(2 * b + 1) < hx.size(); b++) { unsigned v = (unsigned)std::stoi(hx.substr(2 * b, 2), nullptr, 16); for (int i = 0; i < 8; i++) if (v & (1u << i)) tail.cs.set(b * 8 + i); } }
       std::string init = ro.getString("init").getValueOr("any").str();
       if (init == "zero") tail = constCell(0, prov);
-      D.rest = tail;
+      D.rest = tail; D.provAll = tail.prov;
       if (kind == "cstr") {
         R.isString = true; R.readonly = true;
         bool hasTail = ro.getBoolean("tail").getValueOr(false);
@@ -101,6 +104,8 @@ static bool setupCell(const json::Object &cell, State &S, std::string &err) {
         if (!hasTail) { D.bytes.push_back(constCell(0, prov)); R.sizeLo = R.sizeHi = (i128)head.size() + 1; D.rest = constCell(0, prov); R.isString = false; R.readonly = true; }
         else {
           // unknown continuation: tracked tail cells of the given set (may contain NUL), exact length optionally tied to a root
+          if (auto hs = ro.getArray("headsets"))
+            for (auto &h : *hs) { std::string hx = h.getAsString()->str(); ByteCell c; c.cs.reset(); c.prov = prov; for (int b = 0; b < 32 && (size_t)(2 * b + 1) < hx.size(); b++) { unsigned v = (unsigned)std::stoi(hx.substr(2 * b, 2), nullptr, 16); for (int i = 0; i < 8; i++) if (v & (1u << i)) c.cs.set(b * 8 + i); } D.bytes.push_back(c); }
           int64_t ntail = ro.getInteger("tailtrack").getValueOr(0);
           for (int64_t i = 0; i < ntail; i++) D.bytes.push_back(tail);
           R.sizeLo = (i128)head.size() + 1; R.sizeHi = (i128)1 << 40;
@@ -112,6 +117,7 @@ static bool setupCell(const json::Object &cell, State &S, std::string &err) {
         for (char c : head) D.bytes.push_back(constCell((uint8_t)c, prov));
         if (ro.getBoolean("fieldmap").getValueOr(false)) R.fieldmap = 0;
         if (ro.getBoolean("heap").getValueOr(false)) R.kind = RK_HEAP;
+        if (auto arv = ro.getInteger("align_root")) R.alignRoot = (int)*arv;
       }
     }
   Frame NF; NF.F = F; NF.bb = &F->getEntryBlock(); NF.it = NF.bb->begin();
@@ -151,6 +157,9 @@ static std::string pathRecord(State &S, std::map<std::string, int> &setTable, st
   o += ",\"alarms\":[";
   for (size_t i = 0; i < S.alarms.size(); i++) { auto &a = S.alarms[i]; if (i) o += ","; o += "{\"kind\":" + jstr(a.kind) + ",\"fn\":" + jstr(a.fn) + ",\"line\":" + std::to_string(a.line) + ",\"msg\":" + jstr(a.msg) + "}"; }
   o += "],\"nW\":" + std::to_string(S.nW) + ",\"nR\":" + std::to_string(S.nR) + ",\"nIdx\":" + std::to_string(S.nIdx) + ",\"steps\":" + std::to_string(S.steps) + ",\"wrote\":" + (S.wroteReport ? "true" : "false");
+  o += ",\"live_heap\":[";
+  { bool f = true; for (auto &R : S.regions) if (R.kind == RK_HEAP && R.live && (R.name.rfind("malloc@", 0) == 0 || R.name.rfind("realloc@", 0) == 0 || R.name.rfind("mmap@", 0) == 0)) { if (!f) o += ","; f = false; o += jstr(R.name); } }
+  o += "]";
   o += ",\"events\":[";
   for (size_t i = 0; i < S.events.size(); i++) { if (i) o += ","; o += S.events[i]; }
   o += "]";
@@ -199,14 +208,15 @@ int main(int argc, char **argv) {
     O << "{\"id\":" << jstr(cell.getString("id").getValueOr("?").str());
     if (!setupCell(cell, S, e)) { O << ",\"error\":" << jstr(e) << "}"; continue; }
     Engine E;
+    SeenStates.clear();
     E.work.push_back(std::move(S));
-    int64_t npaths = 0; bool budget = false;
+    int64_t npaths = 0, ndedup = 0; bool budget = false;
     std::map<std::string, int> recs; std::vector<std::string> order;
     while (!E.work.empty()) {
       State T = std::move(E.work.back()); E.work.pop_back();
       E.run(std::move(T));
       for (auto &D : E.done) {
-        if (D.aborted && D.abortMsg == "infeasible") continue;
+        if (D.aborted && D.abortMsg == "infeasible") { if (D.dedup) ndedup++; continue; }
         npaths++;
         std::string r = pathRecord(D, setTable, sets);
         if (!recs.count(r)) order.push_back(r);
@@ -215,7 +225,7 @@ int main(int argc, char **argv) {
       E.done.clear();
       if (npaths > CFG.maxPaths) { budget = true; break; }
     }
-    O << ",\"npaths\":" << npaths << ",\"budget\":" << (budget ? "true" : "false") << ",\"paths\":[";
+    O << ",\"ndedup\":" << ndedup << ",\"npaths\":" << npaths << ",\"budget\":" << (budget ? "true" : "false") << ",\"paths\":[";
     for (size_t i = 0; i < order.size(); i++) { if (i) O << ","; O << "\n " << order[i]; }
     O << "]}";
   }
